@@ -30,18 +30,30 @@ func init() {
 	errbase.RegisterSpecialCasePrinter(specialCaseFormat)
 }
 
+// safeLeafSentinels are the well-known leaf errors whose constant
+// message is safe for reporting.
+var safeLeafSentinels = []error{
+	context.DeadlineExceeded,
+	context.Canceled,
+	os.ErrInvalid,
+	os.ErrPermission,
+	os.ErrExist,
+	os.ErrNotExist,
+	os.ErrClosed,
+	os.ErrNoDeadline,
+}
+
 func specialCaseFormat(err error, p errbase.Printer, isLeaf bool) (handled bool, next error) {
-	if isLeaf && markers.IsAny(err,
-		context.DeadlineExceeded,
-		context.Canceled,
-		os.ErrInvalid,
-		os.ErrPermission,
-		os.ErrExist,
-		os.ErrNotExist,
-		os.ErrClosed,
-		os.ErrNoDeadline) {
-		p.Print(redact.Safe(err.Error()))
-		return true, nil
+	if isLeaf {
+		for _, ref := range safeLeafSentinels {
+			// An error can be equivalent to a sentinel through its own
+			// Is() method while carrying a different (unsafe) message:
+			// only the sentinel's own text is known to be safe.
+			if markers.Is(err, ref) && err.Error() == ref.Error() {
+				p.Print(redact.Safe(ref.Error()))
+				return true, nil
+			}
+		}
 	}
 
 	switch v := err.(type) {
